@@ -134,6 +134,9 @@ func (g *hgen) logon(spec LogonSpec) *rig.InMsg {
 		// a numeric header field that is not a number
 		m.PreSeq = append(m.PreSeq, rig.F("369", rapid.SampledFrom([]string{"abc", "1x"}).Draw(g.t, "badHeaderInt")))
 		m.Note += " bad-header-field"
+	case 4, 5:
+		// header fields AHEAD of MsgSeqNum whose tag or value only looks like it
+		m.PreSeq = append(m.PreSeq, rapid.SampledFrom([]rig.Tok{rig.F("5034", "77"), rig.F("115", "DESK/34=9"), rig.F("50", "GW34=9"), rig.F("134", "5")}).Draw(g.t, "seqLookalike"))
 	}
 	return m
 }
